@@ -117,6 +117,10 @@ class GLibEventLoop(AbstractEventLoop):
         if not self._force_quit:
             try:
                 for handler in handlers:
+                    # no handler can run after the force quit
+                    if self._force_quit:
+                        break
+
                     handler.callback(signal, handler.data)
             except ExitMainLoop:
                 self._quit_all_loops()
